@@ -173,7 +173,7 @@ theorem repo_struct_stop_panics :
 
 /-- Known finding `nil-root-panics`: a typed-nil root is dereferenced by the current tree. -/
 theorem repo_nil_root_panics :
-    lcM GenCfg.repo false exNode .nilPtr exVal [seg "L"] = .panic ∧
+    lcM GenCfg.original false exNode .nilPtr exVal [seg "L"] = .panic ∧
     lcM GenCfg.fixed false exNode .nilPtr exVal [seg "L"] = .val 0 := by
   decide
 
